@@ -1275,11 +1275,37 @@ class RenameSeries(Elemwise):
             return (None,) * (self.frame.npartitions + 1)
 
 
+def _column_keyed_projection(expr, mapping, parent, dependents):
+    """Projection push-down for an operation whose argument ``mapping`` is
+    keyed by column label: the input has to stay a DataFrame, because on a
+    Series the keys of the mapping would be taken for index labels."""
+    if (
+        isinstance(mapping, dict)
+        and expr.frame.ndim == 2
+        and not isinstance(parent.operand("columns"), (list, pd.Index))
+    ):
+        column_union = determine_column_projection(expr, parent, dependents)
+        column_union = [
+            col for col in expr.frame.columns if col in _convert_to_list(column_union)
+        ]
+        if column_union == expr.frame.columns:
+            return
+        result = type(expr)(expr.frame[column_union], *expr.operands[1:])
+        return type(parent)(result, parent.operand("columns"))
+    return plain_column_projection(expr, parent, dependents)
+
+
 class Fillna(Elemwise):
     _projection_passthrough = True
     _parameters = ["frame", "value"]
     _defaults = {"value": None}
     operation = M.fillna
+
+    def _simplify_up(self, parent, dependents):
+        if isinstance(parent, Projection):
+            return _column_keyed_projection(
+                self, self.operand("value"), parent, dependents
+            )
 
 
 class Replace(Elemwise):
@@ -1294,6 +1320,19 @@ class Isin(Elemwise):
     _projection_passthrough = True
     _parameters = ["frame", "values"]
     operation = M.isin
+
+    def _simplify_up(self, parent, dependents):
+        if isinstance(parent, Projection):
+            values = self.operand("values")
+            if isinstance(values, _DelayedExpr):
+                # the collection API wraps the values in a Delayed
+                try:
+                    values = values.obj.dask[values.obj.key]
+                except Exception:
+                    values = {}  # unknown: assume they may be keyed by column
+                if isinstance(values, tuple) and values and values[0] is dict:
+                    values = {}  # a dict literal is stored as the task (dict, items)
+            return _column_keyed_projection(self, values, parent, dependents)
 
     @functools.cached_property
     def _meta(self):
